@@ -16,7 +16,8 @@ OUT = "/verif/seeded"
 WT = "/tmp/seedchk"
 ENV = dict(os.environ, GOFLAGS="-mod=mod", GOPROXY="off", GOSUMDB="off", GOTOOLCHAIN="local")
 PKGDIR = {"proc": "proc", "proc_test": "proc", "risc": "risc", "risc_test": "risc", "bytes_test": "common/bytes",
-          "cache_test": "common/cache", "comp": "proc/comp", "comp_test": "proc/comp", "mvp7_0": "proc/mvp7-0", "mvp8_0": "proc/mvp8-0"}
+          "cache_test": "common/cache", "comp": "proc/comp", "comp_test": "proc/comp", "mvp7_0": "proc/mvp7-0", "mvp8_0": "proc/mvp8-0", "mvp7_1": "proc/mvp7-1", "mvp3": "proc/mvp3", "mvp4": "proc/mvp4", "mvp5": "proc/mvp5",
+          "mvp6_0": "proc/mvp6-0", "mvp6_1": "proc/mvp6-1", "mvp6_2": "proc/mvp6-2", "mvp6_3": "proc/mvp6-3"}
 
 
 def sh(cmd, **k):
